@@ -39,7 +39,8 @@ type c16Case struct {
 	// FaultAt (locked-pw pair): the n-th backend call of the compared request fails - in both
 	// worlds. A locked account's login makes the same calls whatever the password is, so a
 	// storage blip must not become a password oracle either.
-	FaultAt int `json:"fault_at,omitempty"`
+	FaultAt int  `json:"fault_at,omitempty"`
+	OddPID  bool `json:"odd_pid,omitempty"` // the known account's identifier (and the stranger's) fails the body reader's form rules
 }
 
 var c16PreludeKinds = []string{"rec-known", "rec-known", "rec-unknown", "login-ok", "login-page", "adv1", "adv45", "adv90", "newsess", "half-session", "half-session", "other-session"}
@@ -309,6 +310,17 @@ func c16Gen(t *rapid.T) c16Case {
 	} else {
 		c.Unknown = pick(t, "unknown", "ghost@x.io", "nobody@nowhere.org", "acctz@x.io")
 	}
+	if c.Kind != "locked-pw" && chance(t, "oddpid", 15) {
+		// an account created outside the sign-up form (seeded, migrated) whose identifier the
+		// form rules of the shipped body reader would not accept - and a stranger of the same shape
+		if c.Cfg.Username {
+			c.Cfg.Accounts[0].PID, c.Unknown = pick(t, "oddname", "12345", "007"), "67890"
+		} else {
+			c.Cfg.Accounts[0].PID, c.Unknown = pick(t, "oddmail", "root@localhost", "admin"), pick(t, "oddunknown", "nobody@localhost", "operator")
+		}
+		c.Cfg.Accounts[0].Email = ""
+		c.OddPID = true
+	}
 	c.Count = rapid.IntRange(0, c.Cfg.LockAfter+2).Draw(t, "count")
 	W := c.Cfg.LockWindowS
 	c.LastAgoS = pick(t, "lastago", 1, W/2, W+5, 10*W)
@@ -351,7 +363,7 @@ func TestC16(t *testing.T) {
 		c := c16Gen(rt)
 		v := c16Run(c)
 		a := c.Cfg.Accounts[0]
-		cls := fmt.Sprintf("%s|json=%v|%v|%v|cnt=%d|ago=%d|totp=%v|sms=%v|rm=%v|mw=%s|err500=%v", c.Kind, c.Cfg.JSON, c.Cfg.Modules, c.Cfg.Setups, c.Count, c.LastAgoS, a.TOTP, a.Phone != "", c.RM, c.Cfg.Middleware, c.Cfg.Err500) + "|" + strings.Join(c.Prelude, ",") + "|" + c.MailFault + "|" + c.KnownPW + fmt.Sprint(c.RedirInBody, c.FaultAt)
+		cls := fmt.Sprintf("%s|json=%v|%v|%v|cnt=%d|ago=%d|totp=%v|sms=%v|rm=%v|mw=%s|err500=%v", c.Kind, c.Cfg.JSON, c.Cfg.Modules, c.Cfg.Setups, c.Count, c.LastAgoS, a.TOTP, a.Phone != "", c.RM, c.Cfg.Middleware, c.Cfg.Err500) + "|" + strings.Join(c.Prelude, ",") + "|" + c.MailFault + "|" + c.KnownPW + fmt.Sprint(c.RedirInBody, c.FaultAt, c.OddPID)
 		classes := []string{"pair:" + c.Kind}
 		if len(c.Prelude) > 0 {
 			classes = append(classes, "with-prelude")
